@@ -27,7 +27,8 @@ CLAIMED['C08'] = dict(
          'real TCPRequestHandler connections racing poll threads and extra driver tasks at lock operations and at '
          'line events of dispatcher.py/modulebase.py; each connection\'s line stream is judged against the ground-truth '
          'history of the parameter cache (snapshot completeness and currency, last message = cache at quiescence, '
-         'nothing after the scope-ending reply, no cross-talk).',
+         'no cache state skipped while a parameter stays in scope, nothing after the scope-ending reply, no cross-talk, '
+         'nothing left in the dispatcher of a connection whose handler has finished).',
     note='Trusted: simulation kernel, simulated TCP, the cache history taken from parameter callbacks (invoked by '
          'frappy inside the update lock). Two in-flight races of broadcast_event are known findings (known_findings.json).',
     design='6/C08')
@@ -37,8 +38,10 @@ CLAIMED['C05'] = dict(
     text='Seeded search over driver-side histories (reads ok/raising/invalid, writes, assignments equal/different/'
          'invalid, explicit and repeated error announcements, gaps below/above the suppression window) from 1..3 '
          'tasks against generated parameters of all datatypes and all omit_unchanged_within/update_unchanged '
-         'settings. Judged (i) against a register model fed from the operations and (ii) by replaying the activated '
-         'connection\'s byte stream against the ground-truth cache history (order, no phantom state, final = cache).',
+         'settings. Judged (i) against a register model fed from the operations and (ii) by replaying the byte stream '
+         'of every activated connection (one activated on the quiet node, 0..2 more from the start, optionally one '
+         'activating in the middle of the history) against the ground-truth cache history (order, no phantom state, '
+         'no state skipped, final = cache).',
     note='Trusted: simulation kernel, fake driver, register model (value/error effect per operation), cache history '
          'from parameter callbacks. With several tasks the final entry must match an operation that may have been last.',
     design='6/C05')
@@ -46,7 +49,8 @@ CLAIMED['C05'] = dict(
 CLAIMED['C07'] = dict(
     level='exploration',
     text='Seeded search over grammar-generated and byte-mutated request streams, explicit cut positions plus network '
-         'segmentation/latency and receive time-outs inside lines, with a second (activated/logging) connection and '
+         'segmentation/latency and receive time-outs inside lines, with a second (activated/logging) connection, '
+         'further connections which activate and leave again while the requests are handled, and '
          'poll threads writing concurrently; real TCPRequestHandler + Dispatcher. Checked: one reply line per request '
          'line in order, reply action/error_<action> with known error class, specifier echo, UTF-8 + strict JSON on '
          'every line, whole lines under concurrent senders, handler alive, no leak to the other connection, answers '
@@ -81,7 +85,7 @@ CLAIMED['C11'] = dict(
          'close/reset/black hole, refused reconnects '
          'and user disconnect at arbitrary points, pre-empting the real SecopClient/AsynTcp threads at lock '
          'operations and line events of client/__init__.py. Checked per caller: own reply or error, no duplicate '
-         'delivery, wait bounded, no request left untransmitted once every request with the same key was answered, '
+         'delivery, wait bounded, no reconnect by the client after a shutdown by the user, no request left untransmitted once every request with the same key was answered, '
          'release on loss with a connection error; disconnect() returns without raising, '
          'no worker thread left.',
     note='Trusted: simulation kernel, simulated TCP, scripted peer. Replies sent after the owner gave up and unknown '
@@ -241,8 +245,8 @@ CLAIMED['C06'] = dict(
          'validator and by frappy\'s own client datatype; readonly/constant flags predict refusal, constants read as '
          'described; undescribed modules/accessibles (known to the harness) unreachable by read/change/do/activate.',
     note='Trusted: simulation kernel, reference validator (DONTCARE = leniencies), the harness\' knowledge of what exists '
-         'but is not exported. The clause "interface class and features match the implementing class" is a pure '
-         'configuration->string mapping and is only checked as a rider in generated mode. In shipped mode a refused '
+         'but is not exported. The clause "interface class and features match the implementing class" is checked '
+         'in generated mode (generated feature mixins, classes derived from the class of an earlier module). In shipped mode a refused '
          'valid payload is not judged.',
     design='6/C06')
 
